@@ -173,6 +173,178 @@ pub fn deser_case(mutated: bool) -> BoxedStrategy<Case> {
         .boxed()
 }
 
+// ------------------------------------------------------------------------------------------------
+// sessions
+
+use crate::props::c03::{self, FItem, Input, Sess, Target};
+use crate::refs::msg::RM;
+use crate::sess::*;
+
+#[derive(Clone, Debug, Serialize, Deserialize)]
+pub struct SessCase {
+    pub target: Target,
+    pub input: Input,
+    pub c: Partition,
+    pub d: Partition,
+}
+
+struct CallRes {
+    start: usize,
+    end: usize,
+    /// None = the call returned Err
+    res: Option<Vec<String>>,
+}
+
+fn norm_out(outdec: &mut OutDec, bytes: &[u8], droppable: bool, out: &mut Vec<String>) -> Result<(), String> {
+    for m in outdec.packet(bytes, droppable)? {
+        let body = match &m.rm {
+            Ok(RM::Ack(_)) => continue, // a function of the call boundaries by definition (C17)
+            Ok(RM::Command(n, t, ob, a)) => format!("cmd {} {:#x} {:?} {:?}", n.build(), t, crate::refs::amf0::from_lib(&crate::refs::amf0::to_lib(ob)), a.iter().map(|x| crate::refs::amf0::from_lib(&crate::refs::amf0::to_lib(x))).collect::<Vec<_>>()),
+            Ok(RM::Data(vs)) => format!("data {:?}", vs.iter().map(|x| crate::refs::amf0::from_lib(&crate::refs::amf0::to_lib(x))).collect::<Vec<_>>()),
+            Ok(other) => format!("{:?}", other),
+            Err(e) => format!("unparsable {}", e),
+        };
+        out.push(format!("O:t{} s{} d{} {}", m.dec.msg.type_id, m.dec.msg.msid, droppable, body));
+    }
+    Ok(())
+}
+
+fn run_session(target: &Target, stream: &[u8], partition: &Partition) -> Result<Vec<CallRes>, String> {
+    let (mut sess, _enc, prep_packets) = c03::prepare_recording(target)?;
+    // the observer must see every packet from the constructor on (header compression)
+    let mut outdec = OutDec::new();
+    for (b, d) in &prep_packets {
+        outdec.packet(b, *d).map_err(|e| format!("preparation output undecodable: {}", e))?;
+    }
+    let mut calls = Vec::new();
+    let mut pos = 0usize;
+    for piece in partition.pieces(stream) {
+        let start = pos;
+        pos += piece.len();
+        let mut res: Vec<String> = Vec::new();
+        let r: Result<(), ()> = match &mut sess {
+            Sess::S(s) => match s.handle_input(piece) {
+                Ok(results) => {
+                    for x in results {
+                        match x {
+                            ServerSessionResult::OutboundResponse(p) => {
+                                if let Err(e) = norm_out(&mut outdec, &p.bytes, p.can_be_dropped, &mut res) {
+                                    return Err(format!("UNDECODABLE {}", e));
+                                }
+                            }
+                            ServerSessionResult::RaisedEvent(e) => res.push(format!("E:{}", fmt_server_event(&e))),
+                            ServerSessionResult::UnhandleableMessageReceived(m) => res.push(format!("U:{} {} {}", m.type_id, m.message_stream_id, m.data.len())),
+                        }
+                    }
+                    Ok(())
+                }
+                Err(_) => Err(()),
+            },
+            Sess::C(s) => match s.handle_input(piece) {
+                Ok(results) => {
+                    for x in results {
+                        match x {
+                            ClientSessionResult::OutboundResponse(p) => {
+                                if let Err(e) = norm_out(&mut outdec, &p.bytes, p.can_be_dropped, &mut res) {
+                                    return Err(format!("UNDECODABLE {}", e));
+                                }
+                            }
+                            ClientSessionResult::RaisedEvent(e) => res.push(format!("E:{}", fmt_client_event(&e))),
+                            ClientSessionResult::UnhandleableMessageReceived(m) => res.push(format!("U:{} {} {}", m.type_id, m.message_stream_id, m.data.len())),
+                        }
+                    }
+                    Ok(())
+                }
+                Err(_) => Err(()),
+            },
+        };
+        let failed = r.is_err();
+        calls.push(CallRes { start, end: pos, res: if failed { None } else { Some(res) } });
+        if failed {
+            break; // an Err from handle_input is terminal
+        }
+    }
+    Ok(calls)
+}
+
+use rml_rtmp::sessions::{ClientSessionResult, ServerSessionResult};
+
+pub fn eval_session(case: &SessCase) -> Verdict {
+    let stream = c03::flat_bytes(&case.input);
+    let base = match run_session(&case.target, &stream, &Partition::ByteByByte) {
+        Ok(b) => b,
+        Err(e) if e.starts_with("UNDECODABLE") => return Verdict::Fail(format!("byte-by-byte run: session output cannot be decoded: {}", e)),
+        Err(e) => return Verdict::Harness(format!("preparation failed: {}", e)),
+    };
+    // byte-by-byte reference: results tagged with the offset of the byte that produced them
+    let err_at: Option<usize> = base.iter().find(|c| c.res.is_none()).map(|c| c.start);
+    let mut total_results = 0usize;
+    for p in [&Partition::Whole, &case.c, &case.d] {
+        let run = match run_session(&case.target, &stream, p) {
+            Ok(r) => r,
+            Err(e) if e.starts_with("UNDECODABLE") => return Verdict::Fail(format!("partition {:?}: session output cannot be decoded: {}", p, e)),
+            Err(e) => return Verdict::Harness(format!("preparation failed: {}", e)),
+        };
+        for call in &run {
+            match (&call.res, err_at) {
+                (None, None) => vfail!("partition {:?}: the call delivering bytes {}..{} fails, byte-by-byte delivery of the same {} bytes never fails", p, call.start, call.end, stream.len()),
+                (None, Some(e)) => {
+                    vensure!(call.start <= e && e < call.end, "partition {:?}: the call delivering bytes {}..{} fails, but byte-by-byte delivery fails at byte {}", p, call.start, call.end, e);
+                }
+                (Some(res), e) => {
+                    if let Some(e) = e {
+                        vensure!(call.end <= e, "partition {:?}: the call delivering bytes {}..{} succeeds although byte-by-byte delivery fails at byte {}", p, call.start, call.end, e);
+                    }
+                    // byte-by-byte: call i delivers byte i, so the reference calls of this range are a slice
+                    let hi = call.end.min(base.len());
+                    let lo = call.start.min(hi);
+                    let want: Vec<&String> = base[lo..hi].iter().filter_map(|b| b.res.as_ref()).flatten().collect();
+                    let same = want.len() == res.len() && want.iter().zip(res.iter()).all(|(a, b)| *a == b);
+                    if !same {
+                        let first = want.iter().zip(res.iter()).position(|(a, b)| *a != b).unwrap_or(want.len().min(res.len()));
+                        vfail!("partition {:?}: the call delivering bytes {}..{} returned {} results, byte-by-byte delivery of the same range returned {}; first difference at result {}: {:?} vs {:?}", p, call.start, call.end, res.len(), want.len(), first, res.get(first).map(|s| truncate(s, 300)), want.get(first).map(|s| truncate(s, 300)));
+                    }
+                    total_results += res.len();
+                }
+            }
+        }
+        // a run that ended without error must have consumed everything the reference consumed
+        if err_at.is_none() {
+            vensure!(run.iter().all(|c| c.res.is_some()), "partition {:?} fails, byte-by-byte does not", p);
+        } else {
+            vensure!(run.iter().any(|c| c.res.is_none()), "partition {:?}: no call fails, byte-by-byte delivery fails at byte {:?}", p, err_at);
+        }
+    }
+    let mut obs = Obs::new();
+    obs.class(match &case.target {
+        Target::Server(0) => "server-fresh",
+        Target::Server(1) => "server-connected",
+        Target::Server(2) => "server-publishing",
+        Target::Server(_) => "server-playing",
+        Target::Client(0) => "client-fresh",
+        Target::Client(1) => "client-connected",
+        Target::Client(2) => "client-publishing",
+        _ => "client-playing",
+    });
+    obs.class_if(err_at.is_some(), "stream-invalid (all partitions fail in the call containing the same byte)");
+    obs.class_if(err_at.is_none(), "stream-accepted");
+    obs.count("results-compared", total_results as u64);
+    obs.nontrivial = total_results >= 2 && stream.len() > 24;
+    Verdict::Pass(obs)
+}
+
+fn session_case() -> BoxedStrategy<SessCase> {
+    let target = prop_oneof![(0u8..4).prop_map(Target::Server), (0u8..4).prop_map(Target::Client)];
+    let framed = proptest::collection::vec((c03::fitem().prop_filter("no application calls inside the stream", |i| !matches!(i, FItem::App(_))), Just(0u16)), 1..12).prop_map(Input::Framed);
+    let input = prop_oneof![
+        8 => framed,
+        2 => proptest::collection::vec(c03::hchunk(), 1..10).prop_map(Input::Headers),
+        2 => deser_case(true).prop_map(|c| Input::Mutated { source: c.source, mutations: c.mutations }),
+        1 => proptest::collection::vec(any::<u8>(), 0..300).prop_map(Input::Raw),
+    ];
+    (target, input, gen::partition(), gen::partition()).prop_map(|(target, input, c, d)| SessCase { target, input, c, d }).boxed()
+}
+
 pub fn spec() -> PropSpec {
     PropSpec {
         id: "C15",
@@ -180,10 +352,13 @@ pub fn spec() -> PropSpec {
         rule: "byte streams: library-serialized sequences, RefChunkEnc foreign streams, raw bytes, and mutants of them (byte flips, overwritten bytes from a header-byte pool, 24-bit header fields replaced by boundary values, truncations, duplicated / deleted ranges); each stream is run under four partitions (one call, byte by byte, two generated ones) through fresh deserializers (and, in the session sub-checks, fresh sessions with the same preparatory history); message sequences, error position and error variant must be identical. Non-trivial = >= 2 messages delivered and a cut strictly inside a chunk header in one generated partition; distinct = distinct case",
         assumptions: vec![
             "error position is judged at the granularity the API has: messages returned before the error, and the error variant",
+            "sessions: handle_input returns Result<Vec<_>, _>, so results gathered earlier in the failing call are necessarily discarded; asserted: the failing call is the one containing the byte at which byte-by-byte delivery fails, and every earlier call returns exactly the byte-by-byte results of its byte range",
+            "sessions: Acknowledgements and session-generated timestamps are masked (functions of call boundaries / of the clock by definition, see C17); an Err from handle_input is terminal",
         ],
         checks: vec![
             PropCheck::new("deserializer-valid", |_| deser_case(false), 6_000, 200_000, eval),
             PropCheck::new("deserializer-mutated", |_| deser_case(true), 8_000, 300_000, eval),
+            PropCheck::new("sessions", |_| session_case(), 5_000, 200_000, eval_session),
         ],
     }
 }
